@@ -282,7 +282,18 @@ class _ExtractTest(ast.NodeTransformer):
         return node
 
 
-REWRITES = {'extract-test': _ExtractTest, 'swap-compare': _SwapCompare, 'invert-if': _InvertIf, 'split-and': _SplitAnd, 'noop-logging': _NoOp,
+class _SnapshotIter(ast.NodeTransformer):
+    """for v in self.X[.values()]:  ->  for v in tuple(self.X[.values()]):   (iteration over a snapshot of an attribute of self)"""
+    def visit_For(self, n: ast.For):
+        self.generic_visit(n)
+        it = n.iter
+        base = it.func.value if isinstance(it, ast.Call) and isinstance(it.func, ast.Attribute) and it.func.attr in ('values', 'items', 'keys') and not it.args else it
+        if isinstance(base, ast.Attribute) and isinstance(base.value, ast.Name) and base.value.id == 'self':
+            n.iter = ast.Call(func=ast.Name(id='tuple', ctx=ast.Load()), args=[it], keywords=[])
+        return n
+
+
+REWRITES = {'snapshot-iter': _SnapshotIter, 'extract-test': _ExtractTest, 'swap-compare': _SwapCompare, 'invert-if': _InvertIf, 'split-and': _SplitAnd, 'noop-logging': _NoOp,
             'annotate-assign': _Annotate, 'cast-value': _Cast, 'insert-assert': _Assert, 'guard-clause': _GuardClause}
 
 
